@@ -420,30 +420,18 @@ def _qr(eng, b, func, out):
         raise UnsupportedOp("linalg_qr of a fat matrix")
     Q = np.empty(A.shape[:-2] + (m, n), dtype=object)
     R_ = np.empty(A.shape[:-2] + (n, n), dtype=object)
-    R_[...] = ZERO
     for idx in batch_iter(A.shape[:-2]):
         M = A[idx]
-        qs = []
-        for j in range(n):
-            v = [M[i, j] for i in range(m)]
-            for k, q in enumerate(qs):
-                r = ZERO
-                for i in range(m):
-                    r = T.add(r, T.mul(q[i], M[i, j]))
-                R_[idx + (k, j)] = r
-                v = [T.sub(v[i], T.mul(r, q[i])) for i in range(m)]
-            nn = ZERO
-            for i in range(m):
-                nn = T.add(nn, T.mul(v[i], v[i]))
-            nrm = T.sqrt(nn)
-            if T.is_term(nrm):
-                eng.require_defined(T.gt(nrm, 0), "qr: full column rank")
-                T.declare_positive(nrm)
-            R_[idx + (j, j)] = nrm
-            q = [T.div(v[i], nrm) for i in range(m)]
-            qs.append(q)
-            for i in range(m):
-                Q[idx + (i, j)] = q[i]
+        # R = chol(A^T A)^T with positive diagonal; radicands are Gram determinants (polynomials), Q = A R^{-1}
+        G = as_obj(np.matmul(M.T, M))
+        Lc, inf = chol_explicit(eng, G, False, "qr")
+        if inf != 0:
+            raise PathAbort("witness point lies outside the domain of definition: qr: full column rank")
+        Ru = Lc.T
+        R_[idx] = Ru
+        # Q^T = R^{-T} A^T  (lower-triangular solve with L = R^T)
+        Qt = tri_solve(eng, Lc, M.T, False, False)
+        Q[idx] = Qt.T
     eng.stub_log.append(("linalg_qr", "gram-schmidt (R diagonal > 0; LAPACK may differ by column signs)"))
     bind_out(eng, Q_t, Q, override_shadow=True)
     bind_out(eng, R_t, R_, override_shadow=True)
